@@ -49,7 +49,7 @@ theorem encoding_prefix_underrun (cfg : EncCfg) (dcfg : DecCfg) (pf : Profile) (
   subst hb
   exact prefix_underrun dcfg t x k hxw (by
     rcases hparse with hp | hp
-    · exact Or.inr (hxd hp)
+    · exact Or.inr (lenForm_allDef hxd hp)
     · exact Or.inl hp) hk
 
 /-- instances for the generated configurations -/
